@@ -78,9 +78,27 @@ func c16Scalar(r *core.Rng) any {
 	case 25:
 		a := ACond(stackage.Cond("pk", stackage.Eq, "pv"))
 		return &a
+	case 26:
+		// values of uncomparable struct types (comparing two of them with == panics at run time)
+		switch r.Intn(3) {
+		case 0:
+			return struct{ L []int }{[]int{1, r.Intn(5)}}
+		case 1:
+			return SliceOp{Txt: "~~", Ctx: "ctx", Tags: []string{"t"}}
+		}
+		return IfaceStruct{Name: "n", Any: map[string]int{"k": 1}}
 	}
 	return fmt.Sprintf("junk%d", r.Intn(50))
 }
+
+// SliceOp is an Operator whose struct type is not comparable.
+type SliceOp struct {
+	Txt, Ctx string
+	Tags     []string
+}
+
+func (o SliceOp) String() string  { return o.Txt }
+func (o SliceOp) Context() string { return o.Ctx }
 
 // c16Row draws a []any: a labelled stack row, a CONDITION row of any arity, pure junk, or an envelope chain.
 func c16Row(r *core.Rng, depth int) []any {
@@ -123,7 +141,14 @@ func c16Row(r *core.Rng, depth int) []any {
 		return row
 	}
 	row := []any{randCase(r, c16Labels[r.Intn(5)])}
-	for i, n := 0, r.Range(0, 5); i < n; i++ {
+	width := r.Range(0, 5)
+	if r.Chance(1, 12) {
+		width = r.Range(15, 40) // a wide row
+		if r.Bool() {
+			row[0] = "no-such-label"
+		}
+	}
+	for i, n := 0, width; i < n; i++ {
 		if depth > 0 && r.Chance(2, 5) {
 			row = append(row, c16Row(r, depth-1))
 		} else {
@@ -306,7 +331,21 @@ func c16Run(c *core.Ctx, idx int) {
 			}
 			continue
 		}
-		// zero receiver now initialised: the label rules
+		// zero receiver now initialised: it is a live receiver from here on, so one more Marshal adds one more element
+		if err == nil {
+			n0 := recv.Len()
+			var err2 error
+			if p, msg, site := Guard(func() { err2 = recv.Marshal("OR", "second", "call") }); p {
+				c.Violatef("panic:"+site+":second-marshal", desc, "a second Marshal into the decoded receiver panicked: %s", msg)
+				return
+			}
+			if err2 != nil || recv.Len() != n0+1 {
+				c.Violatef("decoded-receiver-growth", desc, "a second Marshal (an OR row) into the receiver decoded from %s returned %v and took it from %d to %d elements", shown, err2, n0, recv.Len())
+				return
+			}
+			recv.Pop()
+			c.Count("second-marshal-into-decoded-receiver")
+		}
 		if len(eff) > 0 {
 			if lab, ok := eff[0].(string); ok {
 				up := strings.ToUpper(lab)
